@@ -111,6 +111,7 @@ PROPS = {
         "jobs": [
             {"run": "^TestC11Rounds", "checks": {"quick": 12, "thorough": 200}, "shards": {"quick": 4, "thorough": 16}, "steps": 14, "shrink_s": 45},
             {"run": "^TestC11ResyncAfterFailure", "checks": {"quick": 8, "thorough": 60}, "shards": {"quick": 2, "thorough": 8}, "shrink_s": 45},
+            {"run": "^TestC11StalledServer", "checks": {"quick": 3, "thorough": 30}, "shards": {"quick": 2, "thorough": 4}, "shrink_s": 45},
         ],
         "assumptions": [
             "a reporting tick or sync round that does not complete within 10 s (it takes about 60 ms) is reported as a wedged client",
